@@ -15,8 +15,9 @@ from .model import Func
 YES, NO, UNKNOWN = 'yes', 'no', 'unknown'
 
 
-def expand(func, expr, depth=0, seen=None):
-  """All expressions `expr` can stand for after following plain names to their definitions (flow-insensitive)."""
+def expand(func, expr, depth=0, seen=None, containers=True):
+  """All expressions `expr` can stand for after following plain names to their definitions (flow-insensitive).  With `containers`
+  the right-hand side of an unpacking / the iterable of a loop is listed for its elements too (the element comes *from* it)."""
   seen = seen if seen is not None else set()
   out = [expr]
   if depth > 6 or expr is None:
@@ -26,8 +27,8 @@ def expand(func, expr, depth=0, seen=None):
     for d in flow.defs(func, expr.id):
       v = d[0]
       if isinstance(v, ast.AST):
-        out += expand(func, v, depth + 1, seen)
-      elif isinstance(v, tuple) and len(v) > 1 and isinstance(v[1], ast.AST):
+        out += expand(func, v, depth + 1, seen, containers)
+      elif containers and isinstance(v, tuple) and len(v) > 1 and isinstance(v[1], ast.AST):
         out.append(v[1])
   return out
 
@@ -523,14 +524,21 @@ def pure_aliases(f):
     if isinstance(n, ast.Name) and isinstance(n.ctx, (ast.Store, ast.Del)):
       count[n.id] = count.get(n.id, 0) + 1
   params = set(astu.params(node))
+  pairs = []
   for n in astu.body_walk(node):
-    if isinstance(n, ast.Assign) and len(n.targets) == 1 and isinstance(n.targets[0], ast.Name) and count.get(n.targets[0].id) == 1 and n.targets[0].id not in params:
-      v = n.value
+    if isinstance(n, ast.Assign) and len(n.targets) == 1:
+      t, v = n.targets[0], n.value
+      if isinstance(t, ast.Name):
+        pairs.append((t, v))
+      elif isinstance(t, ast.Tuple) and isinstance(v, ast.Tuple) and len(t.elts) == len(v.elts) and all(isinstance(x, ast.Name) for x in t.elts) and not any(isinstance(x, ast.Starred) for x in v.elts):
+        pairs += list(zip(t.elts, v.elts))
+  for t, v in pairs:
+    if count.get(t.id) == 1 and t.id not in params:
       root = v
       while isinstance(root, ast.Attribute):
         root = root.value
       if isinstance(v, (ast.Name, ast.Attribute)) and isinstance(root, ast.Name) and count.get(root.id, 0) <= (0 if root.id in params else 1):
-        out[n.targets[0].id] = astu.src(v)
+        out[t.id] = astu.src(v)
   return out
 
 
@@ -600,6 +608,8 @@ def judge_expr(R, f, node, expected, key, where, msg, follow=True, vocab=()):
     R.unsure(key, where, 'expression not found (%s)' % msg)
     return False
   alts = [e for e in (expand(f, node) if follow else [node]) if isinstance(e, ast.AST)]
+  # an element unpacked from / iterated over a container is not that container: only plain definitions count as evidence of a swap
+  direct = [e for e in (expand(f, node, containers=False) if follow else [node]) if isinstance(e, ast.AST)]
   if any(astu.src(a) in expected for a in alts):
     R.ok(key, where)
     return True
@@ -618,7 +628,7 @@ def judge_expr(R, f, node, expected, key, where, msg, follow=True, vocab=()):
       ex = _parse_expr(e)
     except SyntaxError:
       continue
-    for a in alts:
+    for a in direct:
       if delta(ex, a, names, al) == 'swap':
         R.fail(key, where, '%s: found `%s`, expected `%s`' % (msg, astu.short(a, 100), e))
         return False
